@@ -14,6 +14,10 @@ from .common import py_call, with_alarm, CaseTimeout
 
 COEFFS = [-2.0, -1.0, -0.5, 0.5, 1.0, 2.0, 0.0]
 
+# wall-clock limit per rewrite step: non-termination (cyclic / inconsistent inputs) is an observable outcome ('fuel');
+# a limit hit under machine load is re-checked with a long limit in run_ops before it counts
+STEP_TIMEOUT = [3.0]
+
 
 # ----------------------------------------------------------------------------- encodings
 
@@ -249,7 +253,7 @@ def graph_levels(g):
 
 def safe_length(g):
     try:
-        return int(with_alarm(0.3, lambda: g.length))
+        return int(with_alarm(0.3 if STEP_TIMEOUT[0] <= 3.0 else 20.0, lambda: g.length))
     except CaseTimeout:
         return {'err': 'fuel'}
     except KeyError:
@@ -353,11 +357,6 @@ def err_kind(ex):
         if isinstance(ex, t):
             return k
     raise ex
-
-
-# wall-clock limit per rewrite step: non-termination (cyclic / inconsistent inputs) is an observable outcome ('fuel');
-# a limit hit under machine load is re-checked with a long limit in run_ops before it counts
-STEP_TIMEOUT = [3.0]
 
 
 def impl_rewrite(op):
